@@ -120,13 +120,13 @@ impl<'a> PrettyPrinter<'a> {
                 }
                 LookAhead::Body => {
                     if let Some(expr) = child.cast() {
-                        // Inside braces a line break ends the statement, so a body that holds a line
+                        // Inside braces a line break ends the statement, so a body that holds a
                         // comment outside any delimiters of its own can only be wrapped in parentheses.
                         let use_braces = if let Expr::Binary(binary) = expr {
                             !is_chainable_binary(binary)
                         } else {
-                            !has_undelimited_line_comment(expr.to_untyped())
-                        };
+                            true
+                        } && !has_undelimited_comment(expr.to_untyped());
                         return FlowItem::spaced(
                             self.convert_expr_with_optional_paren(ctx, expr, use_braces),
                         );
@@ -346,10 +346,11 @@ impl<'a> PrettyPrinter<'a> {
     }
 }
 
-/// Whether the node holds a line comment that is not enclosed in delimiters inside the node.
-fn has_undelimited_line_comment(node: &SyntaxNode) -> bool {
+/// Whether the node holds a comment that is not enclosed in delimiters inside the node.
+/// A line break may follow any comment, also a block comment (`x./**/<newline>t`).
+fn has_undelimited_comment(node: &SyntaxNode) -> bool {
     node.children().any(|child| match child.kind() {
-        SyntaxKind::LineComment => true,
+        SyntaxKind::LineComment | SyntaxKind::BlockComment => true,
         SyntaxKind::Args
         | SyntaxKind::Array
         | SyntaxKind::Dict
@@ -359,7 +360,7 @@ fn has_undelimited_line_comment(node: &SyntaxNode) -> bool {
         | SyntaxKind::CodeBlock
         | SyntaxKind::ContentBlock
         | SyntaxKind::Equation => false,
-        _ => has_undelimited_line_comment(child),
+        _ => has_undelimited_comment(child),
     })
 }
 
